@@ -13,7 +13,18 @@
     sequences.  [pending s] = pool ++ transfers of all open batches; [sum_for tb d l] adds
     amount + tax over the transfers of [l] whose (chain, contract) is mapped to denom [d];
     [occ l i] counts occurrences of id [i].  [table_wf tb]: the two indexes of the denom table agree
-    (one denom per (chain, contract)); it is decidable ([BridgeExamples.table_wf_b_sound]). *)
+    (one denom per (chain, contract)); it is decidable ([BridgeExamples.table_wf_b_sound]).
+
+    Round 2.  The denom table is part of the state: [OMapGov c d k] is setDenomToERC20 as the
+    governance paths call it (no guard in the code), [OMapAdmin c d k auth f] is
+    msgServer.SetERC20ToTokenDenom (refuses a contract already bound on that chain).
+    [guarded s0 ops] says: every [OMapGov] of the history binds a contract that is, at that moment,
+    unbound on that chain or bound to the same denom ([gov_ok]); it constrains nothing else
+    (histories without [OMapGov] are guarded).  Theorem [escrow_eq_pending_unguarded_refuted]
+    shows the guard is needed.  [OSend] carries the transfer-limit decision [lim] (C15) as an
+    input.  [OEndBlockFull h now groups ests f pf] is the whole EndBlocker (createBatch, tally of
+    the observed claims [groups] per active chain, the elected estimates [ests], the timeout
+    sweep) under an error oracle [f] and a PANIC oracle [pf]. *)
 From Coq Require Import List ZArith Bool String.
 From Paloma Require Import Skyway.Bridge Skyway.BridgeProofs Skyway.BridgeExamples.
 From Paloma Require Gen.C01.
@@ -23,17 +34,47 @@ Open Scope Z_scope.
 (** 1. For every bridged token the escrow balance equals the sum of amount + tax over all pending
     outbound transfers — after every history and every fault sequence. *)
 Theorem escrow_eq_pending : forall tb b0 sup0 ops d,
-  table_wf tb ->
+  table_wf tb -> guarded (init tb b0 sup0) ops = true ->
   let s := run (init tb b0 sup0) ops in
-  escrow s d = sum_for tb d (pending s).
+  escrow s d = sum_for (table s) d (pending s).
 Proof. exact escrow_eq_pending_proof. Qed.
 Print Assumptions escrow_eq_pending.
+
+(** 1a. The guard on governance writes of the denom table is needed: the governance paths
+    (SetERC20ToDenomProposal handler, MsgSetERC20MappingProposal) call setDenomToERC20 without
+    it; binding the contract of a pending transfer to another denom breaks the equation (the
+    transfer would be refunded / burned in the other denom).  Witness replayed on the real keeper:
+    harness/corpus/C01/G1_gov_remap_contract_with_pending.json (known finding). *)
+Theorem escrow_eq_pending_unguarded_refuted :
+  exists tb b0 sup0 ops d, table_wf tb /\
+    let s := run (init tb b0 sup0) ops in escrow s d <> sum_for (table s) d (pending s).
+Proof. exact escrow_eq_pending_unguarded_refuted_proof. Qed.
+Print Assumptions escrow_eq_pending_unguarded_refuted.
+
+(** 1b. Under the guard no write of the denom table changes the denom a pending transfer is
+    refunded / burned in; and the invariant behind theorems 1-3 ([InvT]: the conservation
+    equation, one place per id, the table's two indexes agree, every pending transfer is mapped)
+    is kept by every guarded step. *)
+Theorem pending_denom_stable : forall s o t,
+  InvT s -> gov_ok s o = true -> In t (pending s) ->
+  tx_denom (table (fst (step s o))) t = tx_denom (table s) t.
+Proof. exact pending_denom_stable_proof. Qed.
+Print Assumptions pending_denom_stable.
+
+Theorem guarded_step_keeps_invariant : forall s o, InvT s -> gov_ok s o = true -> InvT (fst (step s o)).
+Proof. exact step_InvT. Qed.
+Print Assumptions guarded_step_keeps_invariant.
+
+(** the token-admin path needs no hypothesis: the handler enforces the guard itself *)
+Theorem admin_mapping_is_guarded : forall s c d k auth f, gov_ok s (OMapAdmin c d k auth f) = true.
+Proof. reflexivity. Qed.
+Print Assumptions admin_mapping_is_guarded.
 
 (** 2. Every accepted transfer (ids 1 .. last_tx) is in exactly one place: the pool, exactly one
     open batch (once), refunded, or burned; the four counts add up to 1.  Ids never accepted are
     nowhere. *)
 Theorem transfer_in_exactly_one_place : forall tb b0 sup0 ops i,
-  table_wf tb ->
+  table_wf tb -> guarded (init tb b0 sup0) ops = true ->
   let s := run (init tb b0 sup0) ops in
   accepted s i ->
   (occ (pool_ids s) i + occ (batch_ids s) i + occ (refunded s) i + occ (burned s) i = 1)%nat.
@@ -41,7 +82,7 @@ Proof. exact transfer_in_exactly_one_place_proof. Qed.
 Print Assumptions transfer_in_exactly_one_place.
 
 Theorem unaccepted_transfer_is_nowhere : forall tb b0 sup0 ops i,
-  table_wf tb ->
+  table_wf tb -> guarded (init tb b0 sup0) ops = true ->
   let s := run (init tb b0 sup0) ops in
   ~ accepted s i ->
   (occ (pool_ids s) i + occ (batch_ids s) i + occ (refunded s) i + occ (burned s) i = 0)%nat.
@@ -50,8 +91,8 @@ Print Assumptions unaccepted_transfer_is_nowhere.
 
 (** What the four places mean (the ghost lists [refunded] / [burned] are written only here):
     a successful send takes the next id, locks amount + tax and pools the transfer; *)
-Theorem send_ok_locks_and_pools : forall s u c d a tax f s',
-  step s (OSend u c d a tax f) = (s', Ok) ->
+Theorem send_ok_locks_and_pools : forall s u c d a tax lim f s',
+  step s (OSend u c d a tax lim f) = (s', Ok) ->
   exists k, erc20_of (table s) c d = Some k /\
     last_tx s' = last_tx s + 1 /\
     pool s' = pool_insert (mkT (last_tx s + 1) u c k a tax) (pool s) /\
@@ -81,9 +122,10 @@ Theorem executed_ok_burns_batch : forall s c k n eth f s',
 Proof. exact executed_ok_burns_batch_proof. Qed.
 Print Assumptions executed_ok_burns_batch.
 
-(** and nothing else ever marks a transfer refunded or burned; ids are never reused. *)
+(** and nothing else ever marks a transfer refunded or burned (a whole end-block,
+    [OEndBlockFull], is a run of such steps: [housekeeping_is_atomic_steps]); ids are never reused. *)
 Theorem fates_only_by_cancel_and_executed : forall s o s' out,
-  step s o = (s', out) ->
+  is_full o = false -> step s o = (s', out) ->
   (refunded s' = refunded s \/ exists u i f, o = OCancel u i f /\ out = Ok /\ refunded s' = i :: refunded s) /\
   (burned s' = burned s \/ exists c k n eth f b, o = OExecuted c k n eth f /\ out = Ok /\
       find_batch k n (batches s) = Some b /\ burned s' = map t_id (b_txs b) ++ burned s).
@@ -103,7 +145,7 @@ Print Assumptions transfer_ids_never_reused.
 Theorem pending_records_immutable : forall s o s' out t,
   step s o = (s', out) -> In t (pending s') ->
   In t (pending s) \/
-  exists u c d a tax f k, o = OSend u c d a tax f /\ out = Ok /\ erc20_of (table s) c d = Some k /\
+  exists u c d a tax lim f k, o = OSend u c d a tax lim f /\ out = Ok /\ erc20_of (table s) c d = Some k /\
                           t = mkT (last_tx s + 1) u c k a tax.
 Proof. exact pending_records_immutable_proof. Qed.
 Print Assumptions pending_records_immutable.
@@ -117,7 +159,7 @@ Print Assumptions governance_leaves_bridge_funds_alone.
     [deposits_of] / [executed_of] read the history: they add, for every ODeposit / OExecuted
     operation that reported success, the claim's amount / the batch's amount + tax. *)
 Theorem supply_delta_only_attested : forall tb b0 sup0 ops d,
-  table_wf tb ->
+  table_wf tb -> guarded (init tb b0 sup0) ops = true ->
   let s0 := init tb b0 sup0 in
   supply (run s0 ops) d - sup0 d = deposits_of s0 ops d - executed_of s0 ops d.
 Proof. exact supply_delta_only_attested_proof. Qed.
@@ -133,12 +175,23 @@ Print Assumptions failed_op_is_noop.
 
 (** End-of-block housekeeping (createBatch, cleanupTimedOutBatches, EndBlocker) is nothing but a
     sequence of such all-or-nothing builds and batch cancellations (so each one that fails is a
-    no-op by theorem 4), and it never moves a coin or changes a transfer's fate. *)
+    no-op by theorem 4), and it never moves a coin or changes a transfer's fate.  The same holds
+    for the whole EndBlocker [OEndBlockFull] with the attestation handlers and estimate updates it
+    runs — also when a collaborator PANICS in the middle: what EndBlocker's recover leaves behind
+    is exactly what the sub-steps completed before the panic left ([end_block_is_run_of_substeps]:
+    the trace [eb_tr] lists them; the sub-step that panicked is not among them). *)
 Theorem housekeeping_is_atomic_steps : forall s o,
   atomic_op o = false ->
   exists subs, Forall (fun x => atomic_op x = true) subs /\ fst (step s o) = run s subs.
 Proof. exact housekeeping_is_atomic_steps_proof. Qed.
 Print Assumptions housekeeping_is_atomic_steps.
+
+Theorem end_block_is_run_of_substeps : forall s h now groups ests f pf,
+  let x := end_block_full f pf h now groups ests s in
+  fst (step s (OEndBlockFull h now groups ests f pf)) = run s (eb_tr x) /\
+  Forall (fun o => sub_op o = true) (eb_tr x).
+Proof. exact end_block_is_run_of_substeps_proof. Qed.
+Print Assumptions end_block_is_run_of_substeps.
 
 Theorem batching_moves_no_coins : forall s o,
   moves_no_coins o = true ->
@@ -166,3 +219,28 @@ Theorem code_shape_matches_model :
   /\ Gen.C01.batch_size = 100 /\ Gen.C01.batch_period = 50 /\ Gen.C01.batch_timeout_secs = 600.
 Proof. exact code_shape_proof. Qed.
 Print Assumptions code_shape_matches_model.
+
+(** Round 2 facts re-read from the source on every check: which cached-context functions cannot
+    commit while a panic unwinds (either the tree before the fix: only processAttestation — the
+    harness then reports the known finding and injects no panic — or all five, what the model's
+    [eb_sub] assumes), EndBlocker's recover, setDenomToERC20 as the only writer of the denom table
+    and nothing deleting from it, its callers and the only one that checks the binding first, the
+    transfer-limit check before any write of a send, the steps of createBatch / TryAttestation /
+    emitObservedEvent / processGasEstimates the model's [end_block_full] follows. *)
+Theorem code_shape_matches_model_round2 :
+  (Gen.C01.panic_safe_commit_fns = ["processAttestation"]%string
+   \/ Gen.C01.panic_safe_commit_fns = ["BuildOutgoingTXBatch"; "CancelOutgoingTXBatch"; "OutgoingTxBatchExecuted"; "UpdateBatchGasEstimate"; "processAttestation"]%string)
+  /\ Gen.C01.endblocker_recovers_panics = true
+  /\ Gen.C01.denom_table_writers = ["setDenomToERC20"]%string /\ Gen.C01.denom_table_deleters = []
+  /\ Gen.C01.setDenomToERC20_callers = ["CreateTestEnv"; "InitGenesis"; "NewSkywayProposalHandler"; "SetERC20MappingProposal"; "SetERC20ToTokenDenom"]%string
+  /\ Gen.C01.setDenomToERC20_callers_checking_binding = ["SetERC20ToTokenDenom"]%string
+  /\ Gen.C01.order_setDenomToERC20 = ["GetDenomToERC20Key"; "GetERC20ToDenomKey"]%string
+  /\ Gen.C01.order_SetERC20ToTokenDenom = ["GetChainInfo"; "GetAuthorityMetadata"; "GetDenomOfERC20"; "setDenomToERC20"]%string
+  /\ Gen.C01.order_AddToOutgoingPool_checks = ["UpdateBridgeTransferUsageWithLimit"; "bridgeTaxAmount"; "GetERC20OfDenom"; "SendCoinsFromAccountToModule"]%string
+  /\ Gen.C01.order_createBatch = ["GetAllERC20ToDenoms"; "GetERC20OfDenom"; "BuildOutgoingTXBatch"]%string
+  /\ Gen.C01.order_TryAttestation = ["SetLastObservedEthereumBlockHeight"; "setLastObservedSkywayNonce"; "SetAttestation"; "processAttestation"; "emitObservedEvent"]%string
+  /\ Gen.C01.order_emitObservedEvent = ["GetChainInfo"]%string
+  /\ Gen.C01.order_processGasEstimates = ["IterateOutgoingTxBatches"; "GetBatchGasEstimateByNonceAndTokenContract"; "VerifyGasEstimates"; "UpdateBatchGasEstimate"]%string
+  /\ Gen.C01.processAttestation_commits_only_on_handler_success_and_returns_nil = true.
+Proof. exact code_shape2_proof. Qed.
+Print Assumptions code_shape_matches_model_round2.
